@@ -483,6 +483,10 @@ func (h *hist) opCreatePerm() {
 	c := h.withAlloc()
 	h.actor = c
 	c.MapPeersV6 = h.rng.Intn(10) == 0
+	if h.rng.Intn(8) == 0 {
+		c.ExtraLifetime = sim.U32(uint32(pick(h.rng, []int{0, 1, 5, 30, 3600})))
+		h.rec.FP("perm/with-a-lifetime-attribute")
+	}
 	n := 1
 	if h.rng.Intn(4) == 0 {
 		n = 2 + h.rng.Intn(2)
@@ -522,6 +526,10 @@ func (h *hist) opChanBind() {
 	c := h.withAlloc()
 	h.actor = c
 	c.MapPeersV6 = h.rng.Intn(7) == 0
+	if h.rng.Intn(6) == 0 {
+		c.ExtraLifetime = sim.U32(uint32(pick(h.rng, []int{0, 1, 5, 30, 3600})))
+		h.rec.FP("chan/with-a-lifetime-attribute")
+	}
 	num := h.chanNumber(c)
 	p := h.peerForFamily(c)
 	// a live binding whose host the permission handler refuses by now: its refresh is a
